@@ -166,8 +166,14 @@ def conflict_cases():
     out = []
     n = 0
     combos = [("skip", "compact"), ("skip", "encoded_as"), ("compact", "encoded_as"), ("skip", "compact", "encoded_as")]
+    inner = {"skip": "skip", "compact": "compact", "encoded_as": 'encoded_as = "Compact<u32>"'}
+    variants = []
     for combo in combos:
-        bad = " ".join(ATTRS[a] for a in combo)
+        variants.append((combo, " ".join(ATTRS[a] for a in combo), "separate attributes"))
+        # the same attributes written as ONE list: #[codec(a, b)]
+        variants.append((combo, "#[codec(" + ", ".join(inner[a] for a in combo) + ")]", "one list"))
+        variants.append((combo, "#[codec(" + ", ".join(inner[a] for a in reversed(combo)) + ")]", "one list, reversed"))
+    for combo, bad, how in variants:
         for good_attr in combo[:2]:
             good = ATTRS[good_attr]
             shapes = [
@@ -181,7 +187,7 @@ def conflict_cases():
             ]
             for sname, tmpl in shapes:
                 n += 1
-                f = Case(f"attribute conflict {'+'.join(combo)} ({sname})", "#[derive(Encode, Decode)]\n" + tmpl.format(n=f"Cf{n}", x=bad), True)
+                f = Case(f"attribute conflict {'+'.join(combo)} ({sname}; {how})", "#[derive(Encode, Decode)]\n" + tmpl.format(n=f"Cf{n}", x=bad), True)
                 t = Case(f"single attribute {good_attr} ({sname})", "#[derive(Encode, Decode)]\n" + tmpl.format(n=f"Ct{n}", x=good), False)
                 out.append((f, t))
     return out
@@ -216,19 +222,21 @@ def shape_cases():
 
 
 def assemble(cases):
-    src = [PRELUDE]
-    line = PRELUDE.count("\n") + 1
+    parts = [PRELUDE]
     for k, c in enumerate(cases):
-        head = f"mod m{k} {{ use super::*;"
-        src.append(head)
-        line += 1
-        c.lo = line
-        src.append(c.text)
-        line += c.text.count("\n") + 1
-        c.hi = line - 1
-        src.append("}")
-        line += 1
-    return "\n".join(src) + "\n"
+        parts.append(f"mod m{k} {{ use super::*;")
+        parts.append(c.text)
+        parts.append("}")
+    src = "\n".join(parts) + "\n"
+    # line ranges (1-based, inclusive) are computed from the assembled text itself
+    pos = 0
+    for k, c in enumerate(cases):
+        i = src.index(f"mod m{k} {{ use super::*;\n", pos)
+        j = i + len(f"mod m{k} {{ use super::*;\n")
+        c.lo = src.count("\n", 0, j) + 1
+        c.hi = c.lo + c.text.count("\n")
+        pos = j
+    return src
 
 
 def judge_crate(pid, name, cases, total, chk, dr, stage, expect_clean=False):
